@@ -427,6 +427,22 @@ def rowwise_rule(chk, prog):
             if body is None:
                 continue
             per_row += sum(1 for b in body for call in ast.walk(b) if isinstance(call, ast.Call) and ast.unparse(call.func) == "self.estimate")
+        # a comprehension / loop of the batch routine that builds rows through ANOTHER method of the object is a second implementation next to estimate()
+        from props.c06 import STREAMING as _STREAMING
+        _streaming = set(_STREAMING.get(key, ()))
+        other = []
+        for node in ast.walk(g.node):
+            body = node.body if isinstance(node, ast.For) else ([node.elt] if isinstance(node, (ast.ListComp, ast.GeneratorExp)) else None)
+            if body is None:
+                continue
+            calls_ = [c_ for b in body for c_ in ast.walk(b) if isinstance(c_, ast.Call) and isinstance(c_.func, ast.Attribute) and isinstance(c_.func.value, ast.Name) and c_.func.value.id == "self"]
+            # (the streaming methods of a recursive filter -- AQUA.updateIMU / updateMARG -- are its per-sample route: C06's PROTOCOL owns those loops)
+            calls_ = [c_ for c_ in calls_ if c_.func.attr not in _streaming and not c_.func.attr.startswith(("_assert", "_guard", "_validate"))]
+            if calls_ and not any(c_.func.attr == "estimate" for c_ in calls_):
+                other.append(calls_[0])
+        if other:
+            chk.error("ROWWISE.route: %s._compute_all builds rows through `%s` next to estimate(): a separate implementation of the estimator that is not among the routines "
+                      "proved equal to estimate() (%s) - cannot decide" % (cls.name, ast.unparse(other[0])[:50], ", ".join(sorted(TWIN_PROVED))))
         want = PER_ROW_SITES.get(cls.name, 1)
         if per_row < want:
             chk.error("ROWWISE.route: %s._compute_all has %d per-row self.estimate(...) call site(s), %d confirmed by hand: an N-sample arm is now a separate implementation that "
